@@ -102,48 +102,157 @@ func c01sKID(k *btcec.PublicKey) []byte {
 // ideal leaves / trees / second-level scripts / digests (symbolic runs only)
 // ---------------------------------------------------------------------------
 
-func c01sOpt(opts []input.TaprootScriptOpt) []byte { return []byte{byte(len(opts))} }
+// All witness scripts and tap leaves are ONE uninterpreted function "wscript"
+// of a fixed layout (template tag, three key identities, payment hash, two
+// numbers, a flag) that is assumed injective: two scripts are equal iff they
+// are the same template applied to equal arguments (the real templates embed
+// every argument). P2WSH programs, tapscript roots, tap-leaf hashes and
+// taproot output keys are injective ideal hashes. (The per-template functions
+// of the transaction harness allow collisions BETWEEN templates; here a
+// collision between an offered and a received HTLC script would make
+// locateOutputIndex claim one output twice.)
+const (
+	c01sTagToSelf = iota + 1
+	c01sTagLeaseToSelf
+	c01sTagToRemoteConfirmed
+	c01sTagLeaseToRemoteConfirmed
+	c01sTagAnchor
+	c01sTagSenderHTLC
+	c01sTagReceiverHTLC
+	c01sTagSecondLevel
+	c01sTagLeaseSecondLevel
+	c01sTagTapSenderTimeout
+	c01sTagTapSenderSuccess
+	c01sTagTapReceiverTimeout
+	c01sTagTapReceiverSuccess
+	c01sTagTapSecondLevel
+	c01sTagTapToLocal
+	c01sTagTapToRemote
+	c01sTagTapAnchor
+)
+
+var c01sZero32 = make([]byte, 32)
+
+func c01sScript(tag byte, k0, k1, k2 *btcec.PublicKey, hash []byte, a, b uint32, flag byte) []byte {
+	if hash == nil {
+		hash = c01sZero32
+	}
+	if len(hash) != 32 {
+		panic("c01s: payment hash must be 32 bytes")
+	}
+	id := func(k *btcec.PublicKey) []byte {
+		if k == nil {
+			return c01sZero32
+		}
+		return c01sKID(k)
+	}
+	return vHash("wscript", 40, []byte{tag}, id(k0), id(k1), id(k2), hash, c01U32(a), c01U32(b), []byte{flag})
+}
+
+func c01sOpt(opts []input.TaprootScriptOpt) byte { return byte(len(opts)) }
+
+// ---- segwit v0 ----
+
+func c01sWitnessScriptHash(witnessScript []byte) ([]byte, error) {
+	return append([]byte{txscript.OP_0, txscript.OP_DATA_32}, vHash("p2wsh", 32, witnessScript)...), nil
+}
+
+func c01sCommitScriptToSelf(csvTimeout uint32, selfKey, revokeKey *btcec.PublicKey) ([]byte, error) {
+	return c01sScript(c01sTagToSelf, selfKey, revokeKey, nil, nil, csvTimeout, 0, 0), nil
+}
+
+func c01sLeaseCommitScriptToSelf(selfKey, revokeKey *btcec.PublicKey, csvTimeout, leaseExpiry uint32) ([]byte, error) {
+	return c01sScript(c01sTagLeaseToSelf, selfKey, revokeKey, nil, nil, csvTimeout, leaseExpiry, 0), nil
+}
+
+func c01sCommitScriptUnencumbered(key *btcec.PublicKey) ([]byte, error) {
+	return append([]byte{txscript.OP_0, txscript.OP_DATA_20}, vHash("hash160", 20, c01sKID(key))...), nil
+}
+
+func c01sCommitScriptToRemoteConfirmed(key *btcec.PublicKey) ([]byte, error) {
+	return c01sScript(c01sTagToRemoteConfirmed, key, nil, nil, nil, 0, 0, 0), nil
+}
+
+func c01sLeaseCommitScriptToRemoteConfirmed(key *btcec.PublicKey, leaseExpiry uint32) ([]byte, error) {
+	return c01sScript(c01sTagLeaseToRemoteConfirmed, key, nil, nil, nil, 0, leaseExpiry, 0), nil
+}
+
+func c01sCommitScriptAnchor(key *btcec.PublicKey) ([]byte, error) {
+	return c01sScript(c01sTagAnchor, key, nil, nil, nil, 0, 0, 0), nil
+}
+
+func c01sSenderHTLCScript(senderHtlcKey, receiverHtlcKey, revocationKey *btcec.PublicKey,
+	paymentHash []byte, confirmedSpend bool) ([]byte, error) {
+
+	return c01sScript(c01sTagSenderHTLC, senderHtlcKey, receiverHtlcKey, revocationKey, paymentHash, 0, 0, c01Bool(confirmedSpend)[0]), nil
+}
+
+func c01sReceiverHTLCScript(cltvExpiry uint32, senderHtlcKey, receiverHtlcKey,
+	revocationKey *btcec.PublicKey, paymentHash []byte, confirmedSpend bool) ([]byte, error) {
+
+	return c01sScript(c01sTagReceiverHTLC, senderHtlcKey, receiverHtlcKey, revocationKey, paymentHash, cltvExpiry, 0, c01Bool(confirmedSpend)[0]), nil
+}
+
+func c01sSecondLevelHtlcScript(revocationKey, delayKey *btcec.PublicKey, csvDelay uint32) ([]byte, error) {
+	return c01sScript(c01sTagSecondLevel, revocationKey, delayKey, nil, nil, csvDelay, 0, 0), nil
+}
+
+func c01sLeaseSecondLevelHtlcScript(revocationKey, delayKey *btcec.PublicKey,
+	csvDelay, cltvExpiry uint32) ([]byte, error) {
+
+	return c01sScript(c01sTagLeaseSecondLevel, revocationKey, delayKey, nil, nil, csvDelay, cltvExpiry, 0), nil
+}
+
+// ---- taproot: leaves ----
 
 func c01sSenderHTLCTapLeafTimeout(senderHtlcKey, receiverHtlcKey *btcec.PublicKey,
 	opts ...input.TaprootScriptOpt) (txscript.TapLeaf, error) {
 
-	return txscript.NewBaseTapLeaf(vHash("SenderHTLCTapLeafTimeout", 40,
-		c01KB(senderHtlcKey), c01KB(receiverHtlcKey), c01sOpt(opts))), nil
+	return txscript.NewBaseTapLeaf(c01sScript(c01sTagTapSenderTimeout, senderHtlcKey, receiverHtlcKey, nil, nil, 0, 0, c01sOpt(opts))), nil
 }
 
 func c01sSenderHTLCTapLeafSuccess(receiverHtlcKey *btcec.PublicKey, paymentHash []byte,
 	opts ...input.TaprootScriptOpt) (txscript.TapLeaf, error) {
 
-	return txscript.NewBaseTapLeaf(vHash("SenderHTLCTapLeafSuccess", 40,
-		c01KB(receiverHtlcKey), paymentHash, c01sOpt(opts))), nil
+	return txscript.NewBaseTapLeaf(c01sScript(c01sTagTapSenderSuccess, receiverHtlcKey, nil, nil, paymentHash, 0, 0, c01sOpt(opts))), nil
 }
 
 func c01sReceiverHtlcTapLeafTimeout(senderHtlcKey *btcec.PublicKey, cltvExpiry uint32,
 	opts ...input.TaprootScriptOpt) (txscript.TapLeaf, error) {
 
-	return txscript.NewBaseTapLeaf(vHash("ReceiverHtlcTapLeafTimeout", 40,
-		c01KB(senderHtlcKey), c01U32(cltvExpiry), c01sOpt(opts))), nil
+	return txscript.NewBaseTapLeaf(c01sScript(c01sTagTapReceiverTimeout, senderHtlcKey, nil, nil, nil, cltvExpiry, 0, c01sOpt(opts))), nil
 }
 
 func c01sReceiverHtlcTapLeafSuccess(receiverHtlcKey, senderHtlcKey *btcec.PublicKey,
 	paymentHash []byte, opts ...input.TaprootScriptOpt) (txscript.TapLeaf, error) {
 
-	return txscript.NewBaseTapLeaf(vHash("ReceiverHtlcTapLeafSuccess", 40,
-		c01KB(receiverHtlcKey), c01KB(senderHtlcKey), paymentHash, c01sOpt(opts))), nil
+	return txscript.NewBaseTapLeaf(c01sScript(c01sTagTapReceiverSuccess, receiverHtlcKey, senderHtlcKey, nil, paymentHash, 0, 0, c01sOpt(opts))), nil
 }
 
 func c01sTaprootSecondLevelTapLeaf(delayKey *btcec.PublicKey, csvDelay uint32,
 	opts ...input.TaprootScriptOpt) (txscript.TapLeaf, error) {
 
-	return txscript.NewBaseTapLeaf(vHash("TaprootSecondLevelTapLeaf", 40,
-		c01KB(delayKey), c01U32(csvDelay), c01sOpt(opts))), nil
+	return txscript.NewBaseTapLeaf(c01sScript(c01sTagTapSecondLevel, delayKey, nil, nil, nil, csvDelay, 0, c01sOpt(opts))), nil
 }
 
+// ---- taproot: trees ----
+
 // the tree is represented by a single node whose "script" is the ideal root
+// of (up to three) leaf scripts
 func c01sAssembleTaprootScriptTree(leaves ...txscript.TapLeaf) *txscript.IndexedTapScriptTree {
-	var parts [][]byte
-	for _, l := range leaves {
-		parts = append(parts, []byte{byte(l.LeafVersion)}, l.Script)
+	if len(leaves) == 0 || len(leaves) > 3 {
+		panic("c01s: tapscript tree of 1..3 leaves expected")
+	}
+	parts := [][]byte{{byte(len(leaves))}}
+	for i := 0; i < 3; i++ {
+		if i < len(leaves) {
+			if len(leaves[i].Script) != 40 {
+				panic("c01s: leaf not produced by the model")
+			}
+			parts = append(parts, []byte{byte(leaves[i].LeafVersion)}, leaves[i].Script)
+		} else {
+			parts = append(parts, []byte{0}, make([]byte, 40))
+		}
 	}
 	root := vHash("tapscripttree", 32, parts...)
 	t := &txscript.IndexedTapScriptTree{
@@ -156,9 +265,13 @@ func c01sAssembleTaprootScriptTree(leaves ...txscript.TapLeaf) *txscript.Indexed
 	return t
 }
 
+// only ever applied to the root node of an ideal tree
 func c01sTapLeafHash(l txscript.TapLeaf) chainhash.Hash {
+	if len(l.Script) != 32 {
+		panic("c01s: TapHash of something that is not an ideal tree root")
+	}
 	var h chainhash.Hash
-	copy(h[:], vHash("tapleafhash", 32, []byte{byte(l.LeafVersion)}, l.Script))
+	copy(h[:], vHash("taproothash", 32, l.Script))
 	return h
 }
 
@@ -169,25 +282,39 @@ func c01sComputeTaprootOutputKey(pubKey *btcec.PublicKey, scriptRoot []byte) *bt
 	return k
 }
 
-// PkScript of a script tree: OP_1 <output key> when the tree has one (HTLC and
-// second-level trees, built by the real constructors), else the model of the
-// transaction harness (commitment-level trees: hash of the root).
 func c01sTreePkScript(s *input.ScriptTree) []byte {
-	if s.TaprootKey != nil {
-		return append([]byte{txscript.OP_1, txscript.OP_DATA_32}, c01sKID(s.TaprootKey)...)
+	return append([]byte{txscript.OP_1, txscript.OP_DATA_32}, c01sKID(s.TaprootKey)...)
+}
+
+// commitment-level trees (to_local, to_remote, anchors): internal key = the
+// NUMS point (to_local, to_remote) resp. the anchor key; one ideal leaf
+func c01sCommitTree(internal *btcec.PublicKey, leaf []byte) input.ScriptTree {
+	root := vHash("tapscripttree", 32, []byte{1}, []byte{byte(txscript.BaseLeafVersion)}, leaf,
+		[]byte{0}, make([]byte, 40), []byte{0}, make([]byte, 40))
+	return input.ScriptTree{
+		InternalKey:   internal,
+		TapscriptRoot: root,
+		TaprootKey:    c01sComputeTaprootOutputKey(internal, root),
 	}
-	return c01TreePkScript(s)
 }
 
-func c01sSecondLevelHtlcScript(revocationKey, delayKey *btcec.PublicKey, csvDelay uint32) ([]byte, error) {
-	return vHash("SecondLevelHtlcScript", 40, c01KB(revocationKey), c01KB(delayKey), c01U32(csvDelay)), nil
+func c01sNewLocalCommitScriptTree(csvTimeout uint32, selfKey, revokeKey *btcec.PublicKey,
+	auxLeaf input.AuxTapLeaf, opts ...input.TaprootScriptOpt) (*input.CommitScriptTree, error) {
+
+	leaf := c01sScript(c01sTagTapToLocal, selfKey, revokeKey, nil, nil, csvTimeout, 0, c01sOpt(opts))
+	return &input.CommitScriptTree{ScriptTree: c01sCommitTree(nil, leaf)}, nil
 }
 
-func c01sLeaseSecondLevelHtlcScript(revocationKey, delayKey *btcec.PublicKey,
-	csvDelay, cltvExpiry uint32) ([]byte, error) {
+func c01sNewRemoteCommitScriptTree(remoteKey *btcec.PublicKey, auxLeaf input.AuxTapLeaf,
+	opts ...input.TaprootScriptOpt) (*input.CommitScriptTree, error) {
 
-	return vHash("LeaseSecondLevelHtlcScript", 40, c01KB(revocationKey), c01KB(delayKey),
-		c01U32(csvDelay), c01U32(cltvExpiry)), nil
+	leaf := c01sScript(c01sTagTapToRemote, remoteKey, nil, nil, nil, 0, 0, c01sOpt(opts))
+	return &input.CommitScriptTree{ScriptTree: c01sCommitTree(nil, leaf)}, nil
+}
+
+func c01sNewAnchorScriptTree(anchorKey *btcec.PublicKey) (*input.AnchorScriptTree, error) {
+	leaf := c01sScript(c01sTagTapAnchor, anchorKey, nil, nil, nil, 0, 0, 0)
+	return &input.AnchorScriptTree{ScriptTree: c01sCommitTree(anchorKey, leaf)}, nil
 }
 
 func c01sU64(v uint64) []byte {
@@ -243,37 +370,39 @@ func c01sCfg() {
 	const in = "github.com/lightningnetwork/lnd/input."
 	const me = "github.com/lightningnetwork/lnd/lnwallet."
 	const ts = "github.com/btcsuite/btcd/txscript/v2."
-	// segwit-v0 leaf builders, commitment-level taproot trees: the model of
-	// the transaction harness
-	c01ScriptCfg()
-	// taproot HTLC trees: the REAL constructors of package input run (self
-	// replacement cancels the replacement made by c01ScriptCfg), on ideal
-	// leaves
-	vReplace(in+"SenderHTLCScriptTaproot", in+"SenderHTLCScriptTaproot")
-	vReplace(in+"ReceiverHTLCScriptTaproot", in+"ReceiverHTLCScriptTaproot")
-	vReplace(in+"SenderHTLCTapLeafTimeout", me+"c01sSenderHTLCTapLeafTimeout")
-	vReplace(in+"SenderHTLCTapLeafSuccess", me+"c01sSenderHTLCTapLeafSuccess")
-	vReplace(in+"ReceiverHtlcTapLeafTimeout", me+"c01sReceiverHtlcTapLeafTimeout")
-	vReplace(in+"ReceiverHtlcTapLeafSuccess", me+"c01sReceiverHtlcTapLeafSuccess")
-	vReplace(in+"TaprootSecondLevelTapLeaf", me+"c01sTaprootSecondLevelTapLeaf")
+	// leaf builders of package input -> ideal
+	for _, f := range []string{
+		"WitnessScriptHash", "CommitScriptToSelf", "LeaseCommitScriptToSelf", "CommitScriptUnencumbered",
+		"CommitScriptToRemoteConfirmed", "LeaseCommitScriptToRemoteConfirmed", "CommitScriptAnchor",
+		"SenderHTLCScript", "ReceiverHTLCScript", "SecondLevelHtlcScript", "LeaseSecondLevelHtlcScript",
+		"SenderHTLCTapLeafTimeout", "SenderHTLCTapLeafSuccess", "ReceiverHtlcTapLeafTimeout",
+		"ReceiverHtlcTapLeafSuccess", "TaprootSecondLevelTapLeaf",
+		"NewLocalCommitScriptTree", "NewRemoteCommitScriptTree", "NewAnchorScriptTree",
+	} {
+		vReplace(in+f, me+"c01s"+f)
+	}
+	// The taproot HTLC / second-level tree constructors of package input
+	// (SenderHTLCScriptTaproot, ReceiverHTLCScriptTaproot,
+	// TaprootSecondLevelScriptTree) are NOT replaced: they run on the ideal
+	// leaves and decide which leaf is signed (htlcType).
 	vReplace(ts+"AssembleTaprootScriptTree", me+"c01sAssembleTaprootScriptTree")
 	vReplace("("+ts+"TapLeaf).TapHash", me+"c01sTapLeafHash")
 	vReplace(ts+"ComputeTaprootOutputKey", me+"c01sComputeTaprootOutputKey")
 	vReplace("(*"+in+"ScriptTree).PkScript", me+"c01sTreePkScript")
-	// second-level segwit-v0 scripts
-	vReplace(in+"SecondLevelHtlcScript", me+"c01sSecondLevelHtlcScript")
-	vReplace(in+"LeaseSecondLevelHtlcScript", me+"c01sLeaseSecondLevelHtlcScript")
 	// digests
 	vReplace(ts+"CalcWitnessSigHash", me+"c01sCalcWitnessSigHash")
 	vReplace(ts+"CalcTapscriptSignaturehash", me+"c01sCalcTapscriptSignaturehash")
 	vReplace(ts+"NewTxSigHashes", me+"c01sNewTxSigHashes")
 	vReplace(in+"NewTxSigHashesV0Only", me+"c01sNewTxSigHashesV0Only")
+	for _, uf := range []string{"wscript", "p2wsh", "hash160", "tapscripttree", "taproothash", "taprootoutputkey"} {
+		vInjective(uf)
+	}
 
 	vMerge(me + "HtlcIsDust")
 	vMerge(me + "CommitWeight")
 	vMerge(me + "c01RefDust")
 	vAssumption("C01 htlc sigs: ideal signatures: txscript.CalcWitnessSigHash / CalcTapscriptSignaturehash are uninterpreted functions of all transaction fields, hash type, script code / tap leaf, amount and spent script; a signature verifies iff signer and verifier computed the same digest for the same key; the signer computes its digest from (job.Tx, SignDesc) as lnwallet/btcwallet.SignOutputRaw does")
-	vAssumption("C01 htlc sigs: ideal taproot leaves: input.{Sender,Receiver}H[tT][lL][cC]TapLeaf{Timeout,Success}, TaprootSecondLevelTapLeaf, txscript.AssembleTaprootScriptTree, TapLeaf.TapHash, ComputeTaprootOutputKey and input.SecondLevelHtlcScript / LeaseSecondLevelHtlcScript are uninterpreted functions of their arguments (keys by identity); the real tree constructors of package input run on them")
+	vAssumption("C01 htlc sigs: ideal scripts: every witness script / tap leaf builder of package input (commitment outputs, anchors, offered/received HTLC, second level, their lease and taproot variants) is ONE injective uninterpreted function of (template, key identities, payment hash, numbers, flags); P2WSH / P2WKH programs, tapscript roots (txscript.AssembleTaprootScriptTree, TapLeaf.TapHash) and taproot output keys (txscript.ComputeTaprootOutputKey) are injective ideal hashes; the real HTLC / second-level tree constructors of package input run on the ideal leaves; the Bitcoin script interpreter is never run")
 	vAssumption("C01 htlc sigs: the key rings of the two sides are given (same owner-relative keys, swapped local/remote HTLC keys): DeriveCommitmentKeys is outside; pre-state as in the view harness (log invariant, value invariant I3) with every pending HTLC new on the commitment and untrimmed, both main outputs present, fee rate >= 253 sat/kw")
 }
 
@@ -291,13 +420,14 @@ var c01sShapes = [5][2]int{{1, 0}, {0, 1}, {1, 1}, {2, 0}, {0, 2}}
 
 const c01sX = 1 // the commitment is B's
 
+var c01sFeeRates = [3]int64{2500, 253, 50_000} // sat/kw
+
 const (
-	c01sMaxFeePerKw = int64(50_000)      // sat/kw
 	c01sMaxDust     = int64(50_000)      // sat
 	c01sMaxAmt      = uint64(100_000_000) // msat per HTLC
 )
 
-func c01sScenario(s *c01sScn, types []int, shapes []int) {
+func c01sScenario(s *c01sScn, types, shapes, rates []int) {
 	vs, ts := &s.vs, &s.ts
 	vs.ct = c01TypeOf(types[vChoice("type", len(types))])
 	vs.opener = vChoice("opener", 2)
@@ -315,10 +445,12 @@ func c01sScenario(s *c01sScn, types []int, shapes []int) {
 	}
 	// I3 for the tip: balances + tip fee (+ anchors) = capacity, to the msat
 	vs.capacity = int64((vs.bal[0] + vs.bal[1] + uint64(vs.fee)*1000 + anch) / 1000)
-	vs.feePerKw = vI64("feePerKw")
-	// a node refuses fee rates below the relay floor (chainfee.FeePerKwFloor);
-	// upper bound: 50 000 sat/kw (200 sat/vbyte), so that the opener can pay
-	vAssume(vs.feePerKw >= 253 && vs.feePerKw <= c01sMaxFeePerKw)
+	// The fee rate is a concrete case split (the second-level fee arithmetic
+	// is verified for every fee rate in VerifC01Dust): the relay floor, a
+	// typical and a high rate. With a symbolic rate the fee-floor assertion
+	// of fetchCommitmentView (nested floors of msat/sat conversions) costs
+	// 6-10 s of solver time per path.
+	vs.feePerKw = c01sFeeRates[rates[vChoice("feerate", len(rates))]]
 	vs.height = vU64("height")
 	// SetStateNumHint refuses heights above 2^48-1
 	vAssume(vs.height < 1<<48-1)
@@ -561,6 +693,21 @@ func c01sCheck(s *c01sScn) {
 	after[vs.opener] = after[vs.opener] - fee*1000
 	// both main outputs present
 	vAssume(after[0]/1000 >= vs.dust[c01sX] && after[1]/1000 >= vs.dust[c01sX])
+	// arithmetic facts for fetchCommitmentView's fee-floor assertion (integer
+	// reasoning, discharged once and then available to every later query):
+	// the outputs leave at least the BOLT-3 fee, and that fee is at least
+	// 250 sat/kw on the BOLT-3 weight (which bounds the real weight)
+	outSum := after[0]/1000 + after[1]/1000
+	if ct&c01BitAnchors != 0 {
+		outSum = outSum + 660
+	}
+	for q := 0; q < 2; q++ {
+		for i := range vs.logs[q] {
+			outSum = outSum + int64(vs.logs[q][i].amt/1000)
+		}
+	}
+	vLemma(outSum+fee <= vs.capacity, "outputs + fee never exceed the capacity")
+	vLemma(fee*4 >= c01RefCommitFee(ct, 1000, n), "the BOLT-3 fee at >= 253 sat/kw is at least 250 sat/kw on the BOLT-3 weight")
 
 	A, B := c01sChan(s, 0), c01sChan(s, 1)
 	ringA, ringB := c01sRing(s, 0), c01sRing(s, 1)
@@ -693,17 +840,17 @@ func c01sCheck(s *c01sScn) {
 	}
 }
 
-func c01HtlcSigs(types []int, shapes []int) {
+func c01HtlcSigs(types, shapes, rates []int) {
 	c01sCfg()
 	c01sInitKeys()
 	c01sInitTweaks()
 	var s c01sScn
-	c01sScenario(&s, types, shapes)
+	c01sScenario(&s, types, shapes, rates)
 	c01sCheck(&s)
 }
 
 // VerifC01HtlcSigs: all seven channel types, either party as opener, all five
 // shapes (1 or 2 HTLCs in any combination of directions).
 func VerifC01HtlcSigs() {
-	c01HtlcSigs([]int{0, 1, 2, 3, 4, 5, 6}, []int{0, 1, 2, 3, 4})
+	c01HtlcSigs([]int{0, 1, 2, 3, 4, 5, 6}, []int{0, 1, 2, 3, 4}, []int{0, 1, 2})
 }
